@@ -69,6 +69,32 @@ def bytess : List Val → Option (List Nat)
 def slice (off len : Nat) (xs : List Nat) : Option (List Nat) :=
   if off < xs.length ∧ off + len ≤ xs.length then some ((xs.drop off).take len) else none
 
+/-- `PAIR n` (n ≥ 2): `PAIR 2 = PAIR`, `PAIR (n+1) = DIP { PAIR n } ; PAIR` — folds the top `n` elements into a right comb -/
+def pairN : Nat → List Val → Option (Val × List Val)
+  | 2, a :: b :: st => some (.pair a b, st)
+  | n + 3, a :: st => (pairN (n + 2) st).map fun p => (.pair a p.1, p.2)
+  | _, _ => none
+
+/-- `UNPAIR n` (n ≥ 2): `UNPAIR 2 = UNPAIR`, `UNPAIR (n+1) = UNPAIR ; DIP { UNPAIR n }` -/
+def unpairN : Nat → Val → Option (List Val)
+  | 2, .pair a b => some [a, b]
+  | n + 3, .pair a b => (unpairN (n + 2) b).map (a :: ·)
+  | _, _ => none
+
+/-- `GET n`: `GET 0` is the identity, `GET 1 = CAR`, `GET (n+2) = CDR ; GET n` -/
+def getN : Nat → Val → Option Val
+  | 0, v => some v
+  | 1, .pair a _ => some a
+  | n + 2, .pair _ b => getN n b
+  | _, _ => none
+
+/-- `UPDATE n` with new element `e`: `UPDATE 0` replaces everything, `UPDATE 1` the CAR, `UPDATE (n+2)` updates inside the CDR -/
+def updateN : Nat → Val → Val → Option Val
+  | 0, e, _ => some e
+  | 1, e, .pair _ b => some (.pair e b)
+  | n + 2, e, .pair a b => (updateN n e b).map (.pair a)
+  | _, _, _ => none
+
 /-- the rules for instructions without sub-programs -/
 def step (env : Env) : Instr → List Val → Res (List Val)
   | .DROP, _ :: st => .ok st
@@ -93,6 +119,22 @@ def step (env : Env) : Instr → List Val → Res (List Val)
   | .UNIT, st => .ok (.unit :: st)
   | .PAIR, x :: y :: st => .ok (.pair x y :: st)
   | .UNPAIR, .pair x y :: st => .ok (x :: y :: st)
+  | .PAIRN n, st =>
+    match pairN n st with
+    | some (r, st') => .ok (r :: st')
+    | none => .err
+  | .UNPAIRN n, v :: st =>
+    match unpairN n v with
+    | some xs => .ok (xs ++ st)
+    | none => .err
+  | .GETN n, v :: st =>
+    match getN n v with
+    | some r => .ok (r :: st)
+    | none => .err
+  | .UPDATEN n, e :: v :: st =>
+    match updateN n e v with
+    | some r => .ok (r :: st)
+    | none => .err
   | .CAR, .pair x _ :: st => .ok (x :: st)
   | .CDR, .pair _ y :: st => .ok (y :: st)
   | .SOME, x :: st => .ok (.some x :: st)
